@@ -43,6 +43,50 @@ MIX = OPT + "mixins.py"
 COM = OPT + "common.py"
 
 
+def _scipy_constraint(ctx, rid, repo, sm):
+    from ..alg import Closure, PyFunc, RaisedInFragment
+    from .. import listnp
+    at = Poly.atom
+    rec = []
+
+    def solver(a, k):
+        rec.append((a, k))
+        return Obj("result")
+
+    site = f"{sm.relpath}::scipy_optimizer._minimize"
+    try:
+        ext = dict(listnp.externals())
+        ext["take"] = lambda a, k: listnp.wrap([a[0][int(to_poly(i).const_value())] for i in a[1]])
+        it = Interp({"np": Obj("np"), "numpy": Obj("np"), "scipy": Obj("scipy"), "exceptions": Obj("exceptions")}, {"maxiter": at("MAXITER"), "verbose": False, "tolerance": None, "solver_options": {}}, {}, methods={k: v.node for k, v in repo.cls(sm.relpath, "scipy_optimizer").methods.items()}, cls_name="scipy_optimizer", externals=ext)
+        x0 = listnp.wrap([at("x0"), at("x1"), at("x2"), at("x3")])
+        fixed = [(Poly.const(1), at("c1")), (Poly.const(3), at("c3"))]
+        it.call_function(sm.node, [PyFunc(solver, "minimizer"), Obj("func"), x0], {"do_grad": False, "bounds": Obj("bounds"), "fixed_vals": fixed, "options": {}}, bind_self=True)
+        if len(rec) != 1:
+            ctx.unrecognised(rid, sm, "constraints", f"the solver is called {len(rec)} times")
+            return
+        a, k = rec[0]
+        cons = k.get("constraints")
+        if not (isinstance(cons, (list, tuple)) and len(cons) == 1 and isinstance(cons[0], dict) and cons[0].get("type") == "eq"):
+            ctx.violated(rid, sm, "constraints", "with fixed parameters the solver does not receive exactly one equality constraint: parameters flagged fixed are free to move", expected="[{'type': 'eq', 'fun': v -> v[fixed indices] - fixed values}]", found=str(cons)[:120], node=sm.node)
+            return
+        f_ = cons[0].get("fun")
+        v = listnp.wrap([at("v0"), at("v1"), at("v2"), at("v3")])
+        out = f_.f([v], {}) if isinstance(f_, PyFunc) else it._call_closure(f_, [v], {}) if isinstance(f_, Closure) else None
+        got = [str(to_poly(x)) for x in out] if isinstance(out, (list, tuple)) else repr(out)
+        want = [str(at("v1") - at("c1")), str(at("v3") - at("c3"))]
+        x0_after = [str(to_poly(x)) for x in (a[1] if len(a) > 1 else k.get("x0"))]
+        if got == want and x0_after == ["x0", "c1", "x2", "c3"]:
+            ctx.holds(rid, site, "equality constraint v[fixed indices] - fixed values (interpreted on a 4-vector with parameters 1 and 3 fixed); start values pinned")
+        elif got != want:
+            ctx.violated(rid, sm, "constraints", "the SLSQP equality constraint is not v[fixed indices] - fixed values", expected=str(want), found=str(got), node=sm.node)
+        else:
+            ctx.violated(rid, sm, "x0", "the start values of fixed parameters are not set to their fixed values", expected="['x0', 'c1', 'x2', 'c3']", found=str(x0_after), node=sm.node)
+    except RaisedInFragment as e:
+        ctx.violated(rid, sm, "constraints", f"_minimize raises {e.exc_name} for two fixed parameters")
+    except (Undecided, KeyError, TypeError, ValueError, IndexError, AttributeError) as e:
+        ctx.unrecognised(rid, sm, "constraints", f"not interpretable: {type(e).__name__}: {e}")
+
+
 def run(ctx):
     repo = ctx.repo
     fit = repo.func(MLE, "fit")
@@ -253,16 +297,9 @@ def run(ctx):
                 ctx.holds(r3, f"{sm.relpath}::scipy_optimizer._minimize: {nm} <- {src}")
             else:
                 ctx.violated(r3, sm, c, f"scipy.optimize.minimize does not receive `{nm}` derived from `{src}`" + (": the fit may leave the allowed box" if nm == "bounds" else (": parameters flagged fixed are free to move" if nm == "constraints" else "")), expected=f"{nm}=<{src}>", found=A.short(actual, 40) if actual is not None else "absent", node=c)
-    # the equality constraint really pins v[indices] to values
-    lam = [n for n in ast.walk(sm.node) if isinstance(n, ast.Lambda)]
-    okc = False
-    for l in lam:
-        if isinstance(l.body, ast.BinOp) and isinstance(l.body.op, ast.Sub) and "indices" in A.unparse(l.body.left) and "values" in A.unparse(l.body.right):
-            okc = True
-    if okc:
-        ctx.holds(r3, f"{sm.relpath}::scipy_optimizer._minimize", "equality constraint v[indices] - values")
-    else:
-        ctx.violated(r3, sm, "constraints", "the SLSQP equality constraint is not v[fixed indices] - fixed values", node=sm.node)
+    # the equality constraint really pins v[indices] to values: _minimize interpreted with a recording solver, the constraint
+    # function it hands over evaluated on a symbolic 4-vector with parameters 1 and 3 fixed
+    _scipy_constraint(ctx, r3, repo, sm)
     # minuit
     mg = repo.method(OPT + "opt_minuit.py", "minuit_optimizer", "_get_minimizer")
     dm = Deps(mg.node)
